@@ -59,14 +59,22 @@ INTERIOR = Profile(ops=OPS_REAL, leaves={"coef", "const", "lit", "x", "geo", "ze
 CPLX = Profile(ops={"arith", "math", "index", "tensor", "compound", "deriv", "pow", "var", "complexops"}, cplx=True,
                leaves={"coef", "const", "lit", "x", "zero", "eye"}, max_rank=2, elements="all", manifolds=True,
                args=((0, "any"), (1, "any")))
+INTERIOR_SURF = Profile(ops=OPS_REAL, leaves={"coef", "const", "lit", "x", "geo", "zero", "eye", "n"}, max_rank=2,
+                        elements="all", interior=True, facet=True, manifolds=True, args=((0, "any"), (1, "any")),
+                        cells=("interval", "triangle", "interval", "triangle", "tetrahedron"))
 PRESERVE = ["Jacobian", "JacobianInverse", "JacobianDeterminant", "FacetNormal", "CellVolume", "FacetArea", "Circumradius"]
 
 
 @st.composite
 def cases(draw, tier):
     cplx = draw(st.integers(0, 5)) == 0
-    kind = "cplx" if cplx else draw(st.sampled_from(["cell", "cell", "facet", "interior"]))
-    prof = {"cplx": CPLX, "cell": REAL, "facet": FACET, "interior": INTERIOR}[kind]
+    kind = "cplx" if cplx else draw(st.sampled_from(["cell", "cell", "facet", "interior", "interior"]))
+    # focus stratum (1 in 10): interior facets of interval / triangle meshes (immersed in two thirds of the cases), a
+    # facet-normal factor of either side, restrictions applied -- the combination where n('-') is not -n('+')
+    focus = (not cplx) and draw(st.integers(0, 9)) == 0
+    if focus:
+        kind = "interior"
+    prof = {"cplx": CPLX, "cell": REAL, "facet": FACET, "interior": INTERIOR_SURF if focus else INTERIOR}[kind]
     world = draw(worlds(prof))
     G = Gen(draw, world, prof)
     L = LinGen(G, cplx=cplx)
@@ -82,7 +90,7 @@ def cases(draw, tier):
         elif kind == "facet":
             it = draw(st.sampled_from(["ds", "ds", "dx"]))
         else:
-            it = draw(st.sampled_from(["dS", "dS", "dx"]))
+            it = "dS" if focus else draw(st.sampled_from(["dS", "dS", "dx"]))
         nterms = draw(st.sampled_from([1, 1, 2]))
         terms = [L.term(argnames, draw(st.integers(1, 2))) for _ in range(nterms)]
         if it == "dS":
@@ -90,11 +98,14 @@ def cases(draw, tier):
         e = terms[0]
         for t in terms[1:]:
             e = ["add", e, t]
-        if not cplx and draw(st.integers(0, 2)) == 0:
+        if not cplx and (draw(st.integers(0, 2 if it != "dS" else 1)) == 0 or (focus and it == "dS")):
             # a geometric factor: every scalar cell/facet quantity meets every cell type often enough
             names = list(GEO_SCALAR_CELL) + (list(GEO_SCALAR_FACET) if it != "dx" else [])
             q = ["geo", draw(st.sampled_from(names))]
-            e = ["mul", ["restr", q, draw(st.sampled_from(["+", "-"]))] if it == "dS" else q, e]
+            if it != "dx" and (draw(st.integers(0, 1)) == 0 or focus):
+                # a component of the facet normal (on dS: of either side)
+                q = ["index", ["geo", "FacetNormal"], [draw(st.integers(0, world["gdim"] - 1))]]
+            e = ["mul", ["restr", q, draw(st.sampled_from(["+", "-", "-"]))] if it == "dS" else q, e]
         integrals.append({"itype": it, "sid": draw_sid(draw), "md": draw_md(draw), "expr": e})
     geo = draw(st.booleans())
     opts = {
@@ -104,7 +115,7 @@ def cases(draw, tier):
         "do_cancel_jacobian_products": geo and draw(st.booleans()),
         "do_remove_component_tensors": draw(st.booleans()),
         "do_apply_default_restrictions": draw(st.integers(0, 3)) > 0,
-        "do_apply_restrictions": draw(st.integers(0, 3)) > 0,
+        "do_apply_restrictions": draw(st.integers(0, 3)) > 0 or focus,
         "do_estimate_degrees": draw(st.integers(0, 3)) > 0,
         "do_append_everywhere_integrals": draw(st.booleans()),
         "do_replace_functions": draw(st.integers(0, 3)) == 0,
